@@ -3,10 +3,13 @@ sys.path.insert(0, os.path.dirname(os.path.dirname(os.path.abspath(__file__))))
 from vlib import gocheck
 
 def main():
-    groups = [dict(pkg='compiler/internal/semantics/typechecker', rel='internal/semantics/typechecker', harnesses=['HarnessC12Exported', 'HarnessC12PrivateField'], max_paths=100000)]
+    groups = [dict(pkg='compiler/internal/semantics/typechecker', rel='internal/semantics/typechecker', harnesses=['HarnessC12Exported', 'HarnessC12PrivateField'], max_paths=100000),
+              dict(pkg='compiler/internal/verifrt/fe', rel='internal/verifrt/fe', harnesses=['HarnessC12Fields'], max_paths=100000),
+              dict(pkg='compiler/internal/verifrt/fe', rel='internal/verifrt/fe', harnesses=['HarnessC12Modules'], max_paths=100000)]
     rc = gocheck.run('C12', 'other', groups, gocheck.GOSYM_ASSUME + [
-        'PARTIAL: the capitalisation predicate and the private-field decision of checkSelectorExpr only; the module::symbol export check (resolveStaticAccess, inferScopeResolutionExprType), private types in type positions, the product of syntactic positions and multi-module import shapes are NOT decided',
-    ], 'PARTIAL (kernels): (a) utils.IsExported on every ASCII name of up to 3 bytes: exported <=> first byte in A..Z; (b) checkSelectorExpr executed from its SSA (with the real inferExprType) on selectors b.f, w.B.f, w.Items[0].f, (w.B).f, w.inner.f with f in {secret, Open}, the kinds of b and w symbolic (receiver, parameter, variable), b optionally a reference and optionally shadowed by a local in an inner scope: a lower-case field is accepted exactly when the base is an identifier resolving to a receiver; upper-case fields are always accepted.')
+        'front-end harnesses (HarnessC12Fields, HarnessC12Modules): the first letter of the field / function / constant / variable / type / method name is a SYMBOLIC ASCII letter (the solver splits it into the classes the real lexer and the visibility checks distinguish); the access sites are the listed finite set; the two-module project p/lib + p/app is run through the real lexer, parser, collector, resolver and type checker in the order the pipeline uses',
+        'NOT decided: import shapes beyond one importer and one imported module, sites outside the listed set, code generation',
+    ], 'FRONT END: (1) a struct field with a symbolic first letter accessed from 11 kinds of site (function, &\' parameter write, receiver read/write, another parameter of the same type inside a method, a method of another type, a function literal, a field chain, a loop body, a struct literal, with a same-named method present): accepted iff exported or reached through the receiver / initialised in a literal. (2) a function, constant, variable, type (in a let annotation and in a function-literal parameter) or method of module p/lib with a symbolic first letter named from module p/app: accepted iff upper-case. KERNELS: (a) utils.IsExported on every ASCII name of up to 3 bytes: exported <=> first byte in A..Z; (b) checkSelectorExpr executed from its SSA (with the real inferExprType) on selectors b.f, w.B.f, w.Items[0].f, (w.B).f, w.inner.f with f in {secret, Open}, the kinds of b and w symbolic (receiver, parameter, variable), b optionally a reference and optionally shadowed by a local in an inner scope: a lower-case field is accepted exactly when the base is an identifier resolving to a receiver; upper-case fields are always accepted.')
     sys.exit(rc)
 
 if __name__ == '__main__':
